@@ -64,7 +64,7 @@ def judge(acc, case, prog, cfg, rng):
     cf, cinfo = oracles.certificate_check(rec, ret, mode)
     pf, pinfo = oracles.primal_check(rec, ret, mode, held_objects=driver.held_objects(case.machine))
     for f in cf:
-        if f["key"] == "identity_open_in_span_of_lmi_entry_symmetries":
+        if f["key"] in oracles.C01_KNOWN_KEYS:
             acc.count("c01_known_mechanism_seen")
             continue
         findings.append(dict(f, key="dimred:" + f["key"]))
